@@ -340,8 +340,8 @@ def eventMatchesPath (ctx : Ctx) (node : Node) (p : Path) (e : EventOcc) : Bool 
       (p.leaf.isNone || p.leaf == some e.ev))
 
 /-- the event part of `ReportDataResponder::report_events` (no event-number filters, one chunk):
-first the statuses of the concrete request paths that do not validate — except `UnsupportedEvent`,
-which the code skips (`continue`, see the TODO there) —, then the queued events that pass the
+first the statuses of the concrete request paths that do not validate (absent endpoint / cluster /
+event, access denied), then the queued events that pass the
 fabric filter, match a valid requested path and whose own path validates (`matches_access`) -/
 def reportEvents (ctx : Ctx) (node : Node) (fabricFiltered : Bool) (paths : List Path)
     (queue : List EventOcc) : List EvOut :=
@@ -349,7 +349,6 @@ def reportEvents (ctx : Ctx) (node : Node) (fabricFiltered : Bool) (paths : List
     if !isWildcard p then
       match validateEventPath ctx node p with
       | .ok _ => none
-      | .error .unsupportedEvent => none
       | .error s => some (.status p s)
     else none) ++
   (queue.filter fun e =>
